@@ -336,11 +336,12 @@ def run(ctx, prop):
             ctx.log('PendingStart.tla: %s violated in the MODEL' % pres['violated'])
     if prop in ('C10', 'C09'):
         # watch latency (MasterLag.tla): cycles on a view that lags the store
-        lmod, lcfg, lfiles = lag_cfg(max_events=4 if ctx.quick else 5, max_cycles=3 if ctx.quick else 4)
+        lme, lmc = (5, 4) if ctx.quick else (9, 8)
+        lmod, lcfg, lfiles = lag_cfg(max_events=lme, max_cycles=lmc)
         lres = tlc.mc(mc.SPEC_DIR, lmod, lcfg, extra_files=lfiles, coverage=True,
                       timeout=300 if ctx.quick else 2400)
         ctx.add_mc('MasterLag.tla (watch latency) 2 servers 2 instances events<=%d cycles+restarts<=%d'
-                   % ((4, 3) if ctx.quick else (5, 4)), lres,
+                   % (lme, lmc), lres,
                    need_actions=['DeliverScheduled', 'DeliverPresence', 'DeliverServers', 'DeleteServer',
                                  'CreateServer', 'Cycle', 'PubStep', 'Finish', 'Crash', 'Restart',
                                  'InitSchedule'])
